@@ -95,6 +95,10 @@ var Witnesses = []WitnessCase{
 	{`(?:a?){60}b`, []string{"xx aab aab aab"}},
 	{`\d\w*-`, []string{"11111111111111111111"}},
 	{`(?m)^.*\d\.php`, []string{"x.php.php.php.php.php"}},
+	// --- boundary bytes of the ASCII-only automata (appended after the g14 baseline: appending does not renumber)
+	{`^a.c`, []string{"a\x7fc", "a\x00c", "a\x0bc"}},
+	{`^(.)(.)$`, []string{"\x7fz", "z\x7f"}},
+	{`\Aa.*b.*c$`, []string{"a\x00zb\x7fc"}},
 }
 
 func witness(i uint64) Case {
